@@ -4,6 +4,9 @@
 (*   {"a":"Reset","post":state}              state forced by the harness    *)
 (*   {<fields of Ev>, "post":state}          one call and the projected     *)
 (*                                           implementation state after it  *)
+(*   {"a":"Batch","evs":[ev..],"post":state} one full account snapshot      *)
+(*                                           carrying several reports: the  *)
+(*                                           reports applied in sequence    *)
 (* A line that is not a step of the spec is recorded in `bad` (so that one  *)
 (* pass reports every rejected line) and the logged state is adopted.       *)
 EXTENDS OrderLifecycle, Sequences, Json, IOUtils
@@ -14,8 +17,11 @@ VARIABLES l, bad
 tvars == <<orders, last, l, bad>>
 
 ResetEvent == Ev("Reset", "", "", 0, 0, NoMeta, FALSE)
-
 EvOf(r) == Ev(r.a, r.c, r.k, r.q, r.s, r.m, r.ok)
+BatchEvent == Ev("Batch", "", "", 0, 0, NoMeta, FALSE)
+Single(r) == r.a # "Reset" /\ r.a # "Batch"
+EvsOf(r) == [n \in 1..Len(r.evs) |-> EvOf(r.evs[n])]
+
 StateOf(p) == [c \in CID |-> p[c]]
 
 TInit == /\ l = 1
@@ -32,25 +38,31 @@ TReset == /\ Rec[l].a = "Reset"
 StepOK(e, post) == /\ post[e.c] \in Allowed(orders[e.c], e)
                    /\ \A c \in CID \ {e.c} : post[c] = orders[c]
 
-TStepOK == /\ Rec[l].a # "Reset"
+TStepOK == /\ Single(Rec[l])
            /\ Apply(EvOf(Rec[l]))                       \* the spec's own action
            /\ orders' = StateOf(Rec[l].post)
            /\ UNCHANGED bad
 
-TStepBad == /\ Rec[l].a # "Reset"
+TStepBad == /\ Single(Rec[l])
             /\ ~StepOK(EvOf(Rec[l]), StateOf(Rec[l].post))
             /\ orders' = StateOf(Rec[l].post)
             /\ last' = EvOf(Rec[l])
             /\ bad' = Append(bad, l)
 
+\* one account snapshot = its reports in the delivered sequence (OrderLifecycle!Reach)
+TBatch == /\ Rec[l].a = "Batch"
+          /\ orders' = StateOf(Rec[l].post)
+          /\ last' = BatchEvent
+          /\ bad' = IF StateOf(Rec[l].post) \in Reach(orders, EvsOf(Rec[l]), 1) THEN bad ELSE Append(bad, l)
+
 TNext == /\ l <= Len(Rec)
          /\ l' = l + 1
-         /\ (TReset \/ TStepOK \/ TStepBad)
+         /\ (TReset \/ TStepOK \/ TStepBad \/ TBatch)
 
 TSpec == TInit /\ [][TNext]_tvars
 
 \* the C01 formulas, evaluated on every accepted step of the implementation
-TProps == [][last'.a = "Reset" \/ bad' # bad \/ StepProps]_tvars
+TProps == [][last'.a = "Reset" \/ last'.a = "Batch" \/ bad' # bad \/ StepProps]_tvars
 
 Done == l = Len(Rec) + 1 => PrintT(<<"TRACE_END", ToJson(bad)>>)
 Post == PrintT(<<"TRACE_DONE", TLCGet("stats").diameter, Len(Rec)>>)
